@@ -99,7 +99,7 @@ class C15:
                    'a resulting pitch with more than two accidentals is unconstrained: the call may raise or produce anything for that note',
                    'note cells are located through the generator\'s abstract document, pitch fields through the @-separated eKern cell']
     PROBES = ['fails_midway', 'chain_len_ge_3', 'result_needs_accidental', 'octave_crossed', 'down_direction', 'back_restores',
-              'interrupt_delivered', 'invalid_argument', 'clone_then_transpose', 'source_rechecked_after_transpose']
+              'interrupt_delivered', 'invalid_argument', 'clone_then_transpose', 'source_rechecked_after_transpose', 'background_pitch_api']
 
     # ---------------------------------------------------------------- plan
     def gen_plan(self, seed, index, tier):
@@ -126,7 +126,7 @@ class C15:
         sweep_dir = 'up' if (index // 40) % 2 == 0 else 'down'
         ops.append({'op': 'transpose', 'h': 0, 'iv': sweep_iv, 'dir': sweep_dir})
         for _ in range(n):
-            kind = seeds.weighted(rng, [('transpose', 6), ('back', 4), ('clone', 1.5), ('import', 1), ('dumps', 1),
+            kind = seeds.weighted(rng, [('transpose', 6), ('back', 4), ('clone', 1.5), ('import', 1), ('dumps', 1), ('bg_pitch', 1.2),
                                         ('bad', 1.2 if faulty else 0), ('interrupt', 2.5 if faulty else 0)])
             h = rng.randrange(16)
             if kind == 'transpose':
@@ -140,6 +140,10 @@ class C15:
                 ops.append({'op': 'import', 'doc': rng.randrange(ndocs)})
             elif kind == 'dumps':
                 ops.append({'op': 'dumps', 'h': h, 'enc': rng.choice(SIX)})
+            elif kind == 'bg_pitch':
+                # background traffic through the PUBLIC pitch API: the caller owns what these functions return and may edit it
+                ops.append({'op': 'bg_pitch', 'pitch': rng.choice(['c', 'dd', 'E', 'f', 'gg', 'AA', 'b', 'cc', 'e', 'GG', 'a', 'ccc']),
+                            'iv': rng.choice(ALL_INTERVALS), 'dir': rng.choice(['up', 'down']), 'edit': rng.choice(['octave-1', 'octave+1', 'name', 'none'])})
             elif kind == 'bad':
                 if frng.random() < 0.5:
                     ops.append({'op': 'bad', 'h': h, 'iv': frng.choice(['X9', 'M8', 'p5', '', 'P 5', 'm1', 'M4']), 'dir': 'up'})
@@ -149,17 +153,28 @@ class C15:
                 ops.append({'op': 'interrupt', 'h': h, 'iv': frng.choice(ALL_INTERVALS), 'dir': frng.choice(['up', 'down']),
                             'k_u': frng.randrange(1 << 30), 'payload': frng.choice(['SimInterrupt', 'MemoryError'])})
         return {'property': self.PROPERTY, 'config': 'fault_injecting' if faulty else 'fault_free', 'class': 'core' if core else 'extended',
-                'docs': docs, 'ops': ops}
+                'docs': docs, 'ops': ops, 'warnings': 'error' if erng.random() < 0.1 else 'default'}
 
     def summarize(self, plan):
         return {'class': plan['class'], 'config': plan['config'], 'texts': [docgen.Doc.from_json(d).render() for d in plan['docs']], 'ops': plan['ops']}
 
     # ---------------------------------------------------------------- execution
     def execute(self, plan):
+        import warnings
+        with warnings.catch_warnings():
+            # interpreter environment knob: 10% of the runs treat every warning as an error (python -W error)
+            warnings.simplefilter('error' if plan.get('warnings') == 'error' else 'ignore')
+            return self._execute(plan)
+
+    def _execute(self, plan):
         import kernpy as kp
         log = EventLog()
         viol, faults, probes = [], {}, {}
         core = plan['class'] == 'core'
+
+        def fresh(s):
+            # an equal but not identical string object, as it arrives from argv, JSON or a config file (never interned)
+            return (s + ' ')[:-1] if isinstance(s, str) else s
 
         def bump(d, k, n=1):
             d[k] = d.get(k, 0) + n
@@ -210,6 +225,31 @@ class C15:
 
         for op in plan['ops']:
             kind = op['op']
+            if kind == 'bg_pitch':
+                from kernpy.core.transposer import IntervalsByName
+                out = []
+                try:
+                    ivn = IntervalsByName[op['iv']]
+                    out.append(kp.transpose(fresh(op['pitch']), ivn, direction=fresh(op['dir'])))
+                    p1 = kp.transpose_encoding_to_agnostic(fresh(op['pitch']), ivn, direction=fresh(op['dir']))
+                    p2 = kp.transpose_agnostics(kp.AgnosticPitch(p1.name, p1.octave), ivn, direction=fresh(op['dir']))
+                    out.append([p1.name, p1.octave, p2.name, p2.octave])
+                    # the returned objects belong to the caller
+                    for p in (p1, p2):
+                        if op['edit'] == 'octave-1':
+                            p.octave = p.octave - 1
+                        elif op['edit'] == 'octave+1':
+                            p.octave = p.octave + 1
+                        elif op['edit'] == 'name':
+                            p.name = 'F+' if not p.name.startswith('F') else 'B-'
+                    out.append(kp.transpose_agnostic_to_encoding(kp.AgnosticPitch('C', 4), ivn, direction=fresh(op['dir'])))
+                    out.append(kp.distance(fresh(op['pitch']), 'c'))
+                except Exception as e:
+                    out.append('raised ' + type(e).__name__)
+                log.emit('background', 'bg_pitch', [op['pitch'], op['iv'], op['dir'], op['edit']], out)
+                bump(probes, 'background_pitch_api')
+                check_all('bg_pitch')
+                continue
             if kind == 'import':
                 if len(handles) >= 5:
                     continue
@@ -273,7 +313,7 @@ class C15:
                     hi = handles.index(h)
                 exp_cells, may_fail, uncon = self._expected(docs[h['src']], h, new_chain, kind)
                 try:
-                    r = h['doc'].to_transposed(iv, direction)
+                    r = h['doc'].to_transposed(fresh(iv), fresh(direction))
                 except Exception as e:
                     log.emit('client', kind, [hi, iv, direction], 'raised ' + type(e).__name__)
                     if may_fail:
@@ -314,7 +354,7 @@ class C15:
                 check_all(kind, created=len(handles) - 1)
             elif kind == 'bad':
                 try:
-                    h['doc'].to_transposed(op['iv'], op['dir'])
+                    h['doc'].to_transposed(fresh(op['iv']), fresh(op['dir']))
                     out = 'returned'
                 except ValueError:
                     out = 'ValueError'
@@ -336,7 +376,7 @@ class C15:
                 if total <= 0:
                     continue
                 k = 1 + op['k_u'] % total
-                delivered, out = inj.run(lambda: h['doc'].to_transposed(op['iv'], op['dir']), k, op['payload'])
+                delivered, out = inj.run(lambda: h['doc'].to_transposed(fresh(op['iv']), fresh(op['dir'])), k, op['payload'])
                 log.emit('fault', 'interrupt', [hi, op['iv'], op['dir'], op['payload']], out[0])
                 bump(faults, 'interrupt_' + op['payload'])
                 if delivered:
